@@ -74,6 +74,9 @@ CHECKS = {
  "C20": dict(cat="exploration", tech="differential property testing: validate_dataset vs run() on the same generated inputs (value catalogue + structural violations), DataFrame and CSV",
    text="validate_dataset raises exactly when run('R <- DS_1;') rejects the input with a VTL input error, for every catalogue spelling and for tables with structural violations.",
    note="Purely an agreement check (no validity predicate). Known findings list the value classes on which the pandas validator and the DuckDB loader disagree.", ref="§3 C20"),
+ "C13": dict(cat="model_checking", tech="exhaustive enumeration of dependency graphs replayed against an abstract table-store model + real create/drop traces of run() recorded by a catalog-diff connection proxy",
+   text="Every dependency graph within the bound (<=4 statements thorough / <=3 quick, <=2 global inputs, fan-in <=2, all persistent masks, several textual orders) is scheduled by the real DAGAnalyzer and the schedule replayed against a model store (loaded at most once, resident when read, released exactly once after the last reader, store empty at the end); the same invariants are checked on real traces of run() and the returned result selection.",
+   note="Model = tables as names; traces observe catalog diffs after each non-SELECT call. Bound-exhaustive only.", ref="§3 C13"),
 }
 NOT_YET = "check not built yet in this session (work in progress, see DESIGN.md §5)"
 
